@@ -1,6 +1,5 @@
 # lib/props/C05.py — output files (LJH 2.2, LJH 3, OFF) are well-formed and hold exactly the records
-CLAIMED = False
-NOT_YET = "check under construction (nothing is claimed for it yet)"
+CLAIMED = True
 
 CFG = dict(
     rule="five streams from one seed: the real ljh.Writer, ljh.Writer3 and off.Writer driven directly (CreateFile, WriteHeader, WriteRecord / "
